@@ -58,6 +58,10 @@ type engine struct {
 	predToDecl         map[ast.PredicateSym]*ast.Decl
 	stats              Stats
 	options            EvalOptions
+	// replacedFacts counts the facts that a merge declaration replaced by a
+	// merged fact. Replacing does not grow the store, so the limit on created
+	// facts has to count it separately.
+	replacedFacts int
 }
 
 // ExternalPredicateCallback is used to query external data sources.
@@ -493,6 +497,7 @@ func (e *engine) mergeDelta() error {
 						storeWithRemove.Remove(existingFact)
 					}
 					e.store.Add(fact)
+					e.replacedFacts++
 					return errBreak
 				}
 				return nil
@@ -518,7 +523,15 @@ func (e *engine) mergeDelta() error {
 		}
 		return nil
 	})
-	return err
+	if err != nil {
+		return err
+	}
+	// An ascending chain of merged values creates a new fact in every round
+	// without growing the store.
+	if e.options.createdFactLimit > 0 && e.replacedFacts > e.options.createdFactLimit {
+		return fmt.Errorf("fact size limit reached: %d facts replaced by merging > %d", e.replacedFacts, e.options.createdFactLimit)
+	}
+	return nil
 }
 
 func (e *engine) eval() error {
